@@ -518,6 +518,16 @@ def signed_return(ctx):
                             (isinstance(c.func, ast.Attribute) and
                              c.func.attr in ('abs', 'fabs', 'absolute')) or
                             (isinstance(c.func, ast.Name) and c.func.id == 'abs')):
+                        # EPD, objectNA arm: |EPL - z_object| is the distance
+                        # to the pupil, not a signed optical quantity
+                        if name == 'EPD' and c.args and isinstance(
+                                c.args[0], ast.Name) and any(
+                                isinstance(st, ast.Assign) and
+                                unparse(st.targets[0]) == c.args[0].id and
+                                unparse(st.value).replace(' ', '') ==
+                                'self.EPL()-obj_z'
+                                for st in ast.walk(f.node)):
+                            continue
                         bad = n
         if bad is None:
             res.ok(f'{name}: signed value returned')
@@ -594,14 +604,15 @@ def fno_epd(ctx):
         okna = rat_eq(arg, A('self.optic.aperture.value') / A(ncall[0][0])) \
             and len(nar) == 1 and rat_eq(
                 nar[0], A('self.optic.primary_wavelength')) and syme.eq(
-                epd * syme.cos(th), C(2) * (
+                epd * syme.cos(th), C(2) * syme.absv(
                     A('EPL()') - A('self.optic.object_surface.geometry.cs.z'))
                 * syme.sin(th))
     if okna:
-        res.ok('objectNA arm: 2 (EPL - z_obj) tan(asin(NA / n0))')
+        res.ok('objectNA arm: 2 |EPL - z_obj| tan(asin(NA / n0)) (a diameter: '
+               'the pupil may lie behind the object)')
     else:
         res.fail(ctx.finding('FNO-EPD', fe, fe.node,
-                             'objectNA arm is not 2 (EPL - z_obj) '
+                             'objectNA arm is not 2 |EPL - z_obj| '
                              'tan(asin(NA/n0))', construct='objectNA arm'))
     return res
 
@@ -651,10 +662,12 @@ def mag_inv(ctx):
     # marginal ray
     f = P.func('Paraxial.marginal_ray')
     res.saw(f)
-    for inf in (True, False):
-        def choose(test, ev, inf=inf):
+    for inf, na in ((True, False), (False, False), (False, True)):
+        def choose(test, ev, inf=inf, na=na):
             if 'is_infinite' in unparse(test):
                 return inf
+            if "ap_type == 'objectNA'" in unparse(test):
+                return na
             return None
         sym = Sym()
         got = {}
@@ -679,6 +692,24 @@ def mag_inv(ctx):
         if inf:
             ok = rat_eq(y0, A('EPD()') / C(2)) and rat_eq(u0, ZERO)
             what = 'infinite object: y = EPD/2, u = 0'
+        elif na:
+            # objectNA: the marginal slope in object space is the aperture
+            # definition, tan(asin(NA / n_object)), for every pupil position
+            # (also a pupil at infinity, where EPD / (2 (EPL - z)) is inf/inf)
+            asin = [(a_, d_) for a_, d_ in sym.defs.items()
+                    if d_[0] == 'call:np.arcsin']
+            ok = False
+            if rat_eq(y0, ZERO) and isinstance(u0, Rat) and len(asin) == 1:
+                th = A(asin[0][0])
+                arg = asin[0][1][1][0]
+                ncall = [a_ for a_, d_ in sym.defs.items()
+                         if d_[0].startswith('call:') and d_[0].endswith(
+                             'object_surface.material_post.n')]
+                ok = len(ncall) == 1 and rat_eq(
+                    arg, A('self.optic.aperture.value') / A(ncall[0])) and \
+                    sym.eq(u0 * sym.cos(th), sym.sin(th))
+            what = 'finite object, objectNA: axial ray with slope ' \
+                   'tan(asin(NA / n_object))'
         else:
             # transfer law: y0 + u0 (EPL - z0) == EPD/2
             ok = rat_eq(y0 + u0 * (A('EPL()') - z0), A('EPD()') / C(2)) and \
@@ -690,7 +721,8 @@ def mag_inv(ctx):
         else:
             res.fail(ctx.finding('MAG-INV', f, f.node,
                                  'marginal ray launch is not ' + what,
-                                 construct='marginal launch inf=' + str(inf)))
+                                 construct='marginal launch inf=' + str(inf)
+                                 + (' objectNA' if na else '')))
     return res
 
 
